@@ -234,6 +234,48 @@ def entries():
     }
     for k, fn in T.items():
         E["table." + k] = with_table(fn)
+    # coordinate-taking reads at positions chosen by the case: inside, last, at the edge, beyond, negative
+    def pos(n, k):
+        return [0, max(n - 1, 0), n, n + 2, -1 if n else 0, n // 2][k % 6]
+
+    TI = {
+        "get_row_values@": lambda t, k: (t.get_row_values(pos(t.height, k)), t.get_row_values(pos(t.height, k), cell_type="all", complete=False)),
+        "get_row_sub_elements@": lambda t, k: t.get_row_sub_elements(pos(t.height, k)),
+        "is_row_empty@": lambda t, k: (t.is_row_empty(pos(t.height, k)), t.is_row_empty(pos(t.height, k), aggressive=True)),
+        "get_row@": lambda t, k: (t.get_row(pos(t.height, k)), t.get_row(str(pos(t.height, k // 2) + 1))),
+        "get_rows@": lambda t, k: (t.get_rows((pos(t.height, k), pos(t.height, k) + 2)), t.get_rows(content="a"), t.get_rows(style="ro1")),
+        "get_column@": lambda t, k: (t.get_column(pos(t.width, k)), t.get_columns((pos(t.width, k), pos(t.width, k) + 1))),
+        "get_column_values@": lambda t, k: (t.get_column_values(pos(t.width, k)), t.get_column_cells(pos(t.width, k), cell_type="all", complete=False)),
+        "is_column_empty@": lambda t, k: (t.is_column_empty(pos(t.width, k)), t.is_column_empty(pos(t.width, k), aggressive=True)),
+        "get_cell@": lambda t, k: (t.get_cell((pos(t.width, k), pos(t.height, k // 6))), t.get_cell((pos(t.width, k // 6), pos(t.height, k)), keep_repeated=False)),
+        "get_value@": lambda t, k: (t.get_value((pos(t.width, k), pos(t.height, k // 6))), t.get_value((pos(t.width, k // 6), pos(t.height, k)), get_type=True)),
+        "get_cells@": lambda t, k: t.get_cells((pos(t.width, k), pos(t.height, k // 6), pos(t.width, k) + 2, pos(t.height, k // 6) + 2), flat=bool(k % 2)),
+        "get_values@": lambda t, k: t.get_values((pos(t.width, k), pos(t.height, k // 6), pos(t.width, k) + 2, pos(t.height, k // 6) + 2), complete=bool(k % 2)),
+        "traverse@": lambda t, k: ([r.get_values() for r in t.traverse(pos(t.height, k), pos(t.height, k) + 1)],
+                                   [c.x for c in t.traverse_columns(pos(t.width, k), pos(t.width, k) + 1)]),
+        "cell-props@": lambda t, k: [(c.is_spanned(), c.is_empty(), c.is_empty(aggressive=True), c.type, c.formula, c.currency, c.value, c.string if c.type == "string" else None)
+                                     for c in t.get_cells((0, pos(t.height, k), 4, pos(t.height, k) + 1), flat=True)],
+    }
+    for k_, fn in TI.items():
+        E["table." + k_] = (lambda fn: (lambda d, i=0: (lambda ts: fn(ts[i % len(ts)], i // max(len(ts), 1)) if ts else None)(_tables(d))))(fn)
+    RI = {
+        "get_cell@": lambda r, k: (r.get_cell(pos(r.width, k)), r.get_value(pos(r.width, k)), r.get_value(pos(r.width, k), get_type=True)),
+        "get_cells@": lambda r, k: (r.get_cells((pos(r.width, k), pos(r.width, k) + 2)), r.get_values((pos(r.width, k), pos(r.width, k) + 2))),
+        "traverse@": lambda r, k: [c.get_value() for c in r.traverse(pos(r.width, k), pos(r.width, k) + 2)],
+        "get_sub_elements@": lambda r, k: (r.get_sub_elements(), r.is_empty()),
+    }
+
+    def with_row_i(fn):
+        def f(d, i=0):
+            ts = [t for t in _tables(d) if t.height]
+            if not ts:
+                return None
+            t = ts[i % len(ts)]
+            return fn(t.get_row((i // len(ts)) % t.height, clone=False), i // 3)
+        return f
+
+    for k_, fn in RI.items():
+        E["row." + k_] = with_row_i(fn)
     R = {
         "get_values": lambda r: (r.get_values(), r.get_values(cell_type="all"), r.get_values((0, 1), get_type=True)),
         "cells": lambda r: (r.cells, r.get_cells(), r.get_cells(cell_type="all", content="a")),
@@ -445,7 +487,7 @@ def run_shard(ctx):
         ctx.extra["whole_document_entries"] = ", ".join(whole)
     cases = st.fixed_dictionaries({
         "source": st.one_of(st.sampled_from(srcs), gen, gen),
-        "program": st.lists(st.tuples(st.one_of(st.sampled_from(names), st.sampled_from(names), st.sampled_from(whole)), st.integers(0, 5)),
+        "program": st.lists(st.tuples(st.one_of(st.sampled_from(names), st.sampled_from(names), st.sampled_from(whole)), st.integers(0, 71)),
                             min_size=1, max_size=12)})
 
     def mk():
